@@ -54,6 +54,8 @@ func runC14(p *core.Program, r *core.Report) {
 	r.Floor("R8", 1)
 	universeWriteScan(p, r, "R8", nil)
 	c14R9(p, r)
+	c14R10(p, r, fs)
+	c14R11(p, r, fs)
 }
 
 func c14R1(p *core.Program, r *core.Report, fs []*core.Func) {
@@ -1338,5 +1340,143 @@ func c14R9(p *core.Program, r *core.Report) {
 	}
 	if !found {
 		r.Anchor(rule, "make([]bool, n) of the visited marks")
+	}
+}
+
+// c14R10: "no panic": a single-value assertion to the package record panics when its operand is nil. The resolver takes
+// the package of a function it follows from the UNIVERSE, which holds the whole dependency closure - never from the
+// table of the current package's direct imports, which lacks the packages reached through a selector on a value of a
+// transitive dependency (`resp.Body.Close()`).
+func c14R10(p *core.Program, r *core.Report, fs []*core.Func) {
+	const rule = "R10"
+	r.Floor(rule, 2)
+	n := 0
+	for _, f := range fs {
+		if f.Body == nil {
+			continue
+		}
+		info := f.Info()
+		commaOK := map[*ast.TypeAssertExpr]bool{}
+		ast.Inspect(f.Body, func(m ast.Node) bool {
+			switch x := m.(type) {
+			case *ast.AssignStmt:
+				if len(x.Lhs) == 2 && len(x.Rhs) == 1 {
+					if ta, ok := ast.Unparen(x.Rhs[0]).(*ast.TypeAssertExpr); ok {
+						commaOK[ta] = true
+					}
+				}
+			case *ast.ValueSpec:
+				if len(x.Names) == 2 && len(x.Values) == 1 {
+					if ta, ok := ast.Unparen(x.Values[0]).(*ast.TypeAssertExpr); ok {
+						commaOK[ta] = true
+					}
+				}
+			}
+			return true
+		})
+		ast.Inspect(f.Body, func(m ast.Node) bool {
+			if lit, ok := m.(*ast.FuncLit); ok && lit != f.Lit {
+				return false
+			}
+			ta, ok := m.(*ast.TypeAssertExpr)
+			if !ok || ta.Type == nil || commaOK[ta] {
+				return true
+			}
+			pt, isPtr := info.TypeOf(ta.Type).(*types.Pointer)
+			if !isPtr || core.NamedTypeName(pt.Elem()) != core.G("pkg/types.pkgInfo") {
+				return true
+			}
+			n++
+			op, _ := core.Resolve(info, f.Root().Body, ta.X)
+			fromUniverse := core.AsCall(info, op, core.GM("pkg/types", "*Universe", "Package")) != nil
+			r.Check(fromUniverse, rule, f, "the package record of a followed function comes from the universe: "+core.ExprStr(ta), ta.Pos(), "operand is Universe.Package(path)",
+				"the unchecked assertion `"+core.ExprStr(ta)+"` is applied to something else than a lookup in the universe: a function reached through a selector can be declared in a package that is only a transitive dependency - a table of direct imports answers nil for it and the assertion panics")
+			return true
+		})
+	}
+	if n == 0 {
+		r.Anchor(rule, "assertions to *pkgInfo in the result resolver")
+	}
+}
+
+// c14R11: "exactly those values in source order": the scan for the return statements of a body visits every statement.
+// The callback handed to ast.Inspect answers false - do not descend - only for function literals (their returns belong
+// to another function), for the nil node, for a return statement itself, and when the consumer stopped.
+func c14R11(p *core.Program, r *core.Report, fs []*core.Func) {
+	const rule = "R11"
+	r.Floor(rule, 1)
+	n := 0
+	for _, f := range fs {
+		if f.Lit == nil || f.Parent == nil {
+			continue
+		}
+		// the callback of an ast.Inspect call that has a clause for *ast.ReturnStmt
+		isInspectArg := false
+		for _, c := range core.Calls(f.Parent.Body, true) {
+			if core.CalleeName(f.Parent.Info(), c) == "go/ast.Inspect" && len(c.Args) == 2 && ast.Unparen(c.Args[1]) == ast.Expr(f.Lit) {
+				isInspectArg = true
+			}
+		}
+		if !isInspectArg {
+			continue
+		}
+		info := f.Info()
+		hasReturnClause := false
+		ast.Inspect(f.Body, func(m ast.Node) bool {
+			if cc, ok := m.(*ast.CaseClause); ok {
+				for _, e := range cc.List {
+					if core.NamedTypeName(info.TypeOf(e)) == "go/ast.ReturnStmt" {
+						hasReturnClause = true
+					}
+				}
+			}
+			return true
+		})
+		if !hasReturnClause {
+			continue
+		}
+		n++
+		g := graph(f)
+		bad := ""
+		for _, rp := range g.Points(func(m ast.Node) bool { _, ok := m.(*ast.ReturnStmt); return ok }) {
+			ret := rp.Node().(*ast.ReturnStmt)
+			if len(ret.Results) != 1 {
+				continue
+			}
+			tv := info.Types[ret.Results[0]]
+			if tv.Value == nil || tv.Value.String() != "false" {
+				continue
+			}
+			okStop := false
+			for _, tf := range typeFactsAt(f, ret) {
+				switch core.NamedTypeName(tf.Type) {
+				case "go/ast.FuncLit", "go/ast.ReturnStmt":
+					okStop = true
+				}
+			}
+			for _, fct := range g.FactsAt(rp) {
+				c := ast.Unparen(fct.Cond)
+				// node == nil
+				if b, isBin := c.(*ast.BinaryExpr); isBin && b.Op == token.EQL && fct.Val {
+					if id, isNil := ast.Unparen(b.Y).(*ast.Ident); isNil && id.Name == "nil" {
+						okStop = true
+					}
+				}
+				// the consumer (a function value: yield, or a local wrapper of it) answered false
+				if call, isCall := c.(*ast.CallExpr); isCall && !fct.Val {
+					if v := core.VarOf(info, call.Fun); v != nil {
+						okStop = true
+					}
+				}
+			}
+			if !okStop {
+				bad = core.ExprStr(ret) + " at " + p.Pos(ret.Pos())
+			}
+		}
+		r.Check(bad == "", rule, f, "the scan for return statements descends into every statement", f.Node().Pos(), "`return false` only for function literals, the nil node, a return statement, or a consumer that stopped",
+			"the callback of the return-statement scan can answer false for other nodes ("+bad+"): the statements below such a node (a labelled statement ...) are not visited, their return statements are missing from the alternatives")
+	}
+	if n == 0 {
+		r.Anchor(rule, "the ast.Inspect callback that collects *ast.ReturnStmt in the result resolver")
 	}
 }
